@@ -3,7 +3,7 @@
 import json, re, sys, os
 rows = []
 for line in open(sys.argv[1]):
-    m = re.match(r"(\S+) check=(\S+) scale=(\S+) exit=(\d+) violating_runs=(\d+) classes: (.*)", line.strip())
+    m = re.match(r"(\S+) check=(\S+) scale=(\S+) exit=(\d+) violating_runs=(\d+) classes:\s*(.*)", line.strip())
     if not m:
         continue
     sid, chk, scale, rc, vr, classes = m.groups()
